@@ -56,7 +56,7 @@ def stepLine (dom : String) (st : DState) (full : String) : DState × String :=
       let op := (fields.headD "")
       let keep := match dom with
         | "idx11" => ["create", "update", "delete", "value", "exists", "createbad", "txn", "excl", "hist", "dclose", "initrace", "untyped"].contains op
-        | "idx12" => ["init", "initrace", "rebuild", "query", "collide"].contains op
+        | "idx12" => ["init", "initrace", "initbad", "rebuild", "query", "collide"].contains op
         | "idx13" => ["query"].contains op
         | "idx14" => ["flush"].contains op
         | _ => true
